@@ -29,6 +29,12 @@ def run_table(tier, seed):
                         sc = G.scalings_of(spec, (0, 1))[k % 2]
                         k += 1
                         out.append({"t": "run", "spec": sp, "cfg": c, "sc": sc})
+    # norm-type family: several near-equal multipliers x a fine logarithmic grid of rho0 (8 values per decade)
+    grid = [10.0 ** (e / 8.0) for e in range(-32, 1)] if tier == "thorough" else [10.0 ** (e / 8.0) for e in range(-24, -7)]
+    for spec in G.multi_multiplier_specs():
+        for rho0 in grid:
+            for pen in ("DualNorm", "DualEquilibration"):
+                out.append({"t": "run", "spec": spec, "cfg": {"penalty": pen, "iteration_limit": 80, "params": {"rho": rho0}}, "sc": None})
     return out
 
 
@@ -47,7 +53,7 @@ def run_case(case):
     viol = M.mon_c16(ctx.rec, ctx.params, case["cfg"]["penalty"])
     rhos = {t.rho for t in ctx.rec.trials}
     return {"outcome": outcome_of(ctx.rec),
-            "key": f"{case['spec']['tag']}|{case['cfg']['penalty']}|{case['cfg']['control']}|{case['spec']['y0']}|{case['cfg']['params']['rho']}" if len(rhos) > 1 else None,
+            "key": f"{case['spec']['tag']}|{case['cfg']['penalty']}|{case['cfg'].get('control')}|{case['spec']['y0']}|{case['cfg']['params']['rho']}" if len(rhos) > 1 else None,
             "violations": viol, "stats": {"run": 1, "trials": len(ctx.rec.trials), "rho_changes": max(0, len(rhos) - 1)}}
 
 
